@@ -805,4 +805,6 @@ def run(ctx):
                           "order of additions can overflow",
                           "Int128/UInt128 have no SQL spelling exercised here; the 128-bit theorems are proofs only (Decimal128 exercises i128)"]
     out["wall"] = time.time() - t0
-    return out
+    # SUM/AVG state machines (update/merge/finalize) over any split of the input: model/AggFn.v, props/C07fn.v
+    from . import c07fn
+    return common.merge_results(out, c07fn.run(ctx), "aggregate_function_states")
